@@ -4,22 +4,25 @@
 (* is closed, its pages are unmapped, later reads are errors; the schedule neither deadlocked nor crashed.              *)
 EXTENDS Integers, Sequences, TLC, Json
 TraceLog == ndJsonDeserialize("trace.ndjson")
-VARIABLES l, closing
+VARIABLES l, closing, inCb     \* inCb: number of reader callbacks currently running
 ev == TraceLog[l]
 IsEv(e) == l <= Len(TraceLog) /\ ev.e = e /\ l' = l + 1
-TInit == l = 1 /\ closing = FALSE
-TReset == IsEv("reset") /\ closing' = FALSE
-TClosing == IsEv("closing") /\ closing' = TRUE
+TInit == l = 1 /\ closing = FALSE /\ inCb = 0
+TReset == IsEv("reset") /\ closing' = FALSE /\ inCb' = 0
+TClosing == IsEv("closing") /\ closing' = TRUE /\ UNCHANGED inCb
+TEnter == IsEv("enter") /\ inCb' = inCb + 1 /\ UNCHANGED closing
+TExit == IsEv("exit") /\ inCb' = inCb - 1 /\ UNCHANGED closing
 TRead == /\ IsEv("read")
-         /\ (ev.saw => (ev.bytes /\ ev.prot = "RO"))     \* whoever got into the callback saw the original bytes through read-only pages
+         /\ (ev.saw => (ev.bytes /\ ev.prot = "RO" /\ ev.prot2 = "RO"))     \* whoever got into the callback saw the original bytes through read-only pages
          /\ (ev.ok => ev.saw)
          /\ (~ev.ok => closing)                          \* an error only once a Close has begun (a nested reader may hit it after the outer one got in)
-         /\ UNCHANGED closing
-TClose == IsEv("close") /\ ev.ok /\ UNCHANGED closing
-TEnd == IsEv("end") /\ ev.closed /\ ~ev.mapped /\ ~ev.readAfter /\ UNCHANGED closing
-TFinal == IsEv("final") /\ ev.dead = "" /\ ev.panic = "" /\ UNCHANGED closing
-TNext == TReset \/ TClosing \/ TRead \/ TClose \/ TEnd \/ TFinal
-TSpec == TInit /\ [][TNext]_<<l, closing>>
+         /\ UNCHANGED <<closing, inCb>>
+\* every Close call returns only when no reader is in flight any more and the secret is gone (Close waits for in-flight readers)
+TClose == IsEv("close") /\ ev.ok /\ ev.closed /\ inCb = 0 /\ UNCHANGED <<closing, inCb>>
+TEnd == IsEv("end") /\ ev.closed /\ ~ev.mapped /\ ~ev.readAfter /\ UNCHANGED <<closing, inCb>>
+TFinal == IsEv("final") /\ ev.dead = "" /\ ev.panic = "" /\ UNCHANGED <<closing, inCb>>
+TNext == TReset \/ TClosing \/ TEnter \/ TExit \/ TRead \/ TClose \/ TEnd \/ TFinal
+TSpec == TInit /\ [][TNext]_<<l, closing, inCb>>
 TraceAccepted == LET d == TLCGet("stats").diameter IN
                  IF d - 1 = Len(TraceLog) THEN TRUE ELSE Print(<<"TRACE-REJECTED-AT-LINE", d>>, FALSE)
 =============================================================================
